@@ -24,24 +24,65 @@ use vh::*;
 struct CountingAlloc;
 thread_local! {
     static T_ALLOC: Cell<u64> = const { Cell::new(0) };
+    static T_MAX: Cell<u64> = const { Cell::new(0) };
 }
+/// process-wide: total bytes requested and the largest single request (a `reserve` counts even if the
+/// memory is never touched); the live tiers read these around every injected input
 static G_ALLOC: AtomicU64 = AtomicU64::new(0);
+static G_MAX: AtomicU64 = AtomicU64::new(0);
+fn note_alloc(req: u64, grown: u64) {
+    let _ = T_ALLOC.try_with(|c| c.set(c.get() + grown));
+    let _ = T_MAX.try_with(|c| if req > c.get() { c.set(req) });
+    G_ALLOC.fetch_add(grown, Ordering::Relaxed);
+    G_MAX.fetch_max(req, Ordering::Relaxed);
+}
 unsafe impl GlobalAlloc for CountingAlloc {
     unsafe fn alloc(&self, l: Layout) -> *mut u8 {
-        let _ = T_ALLOC.try_with(|c| c.set(c.get() + l.size() as u64));
-        G_ALLOC.fetch_add(l.size() as u64, Ordering::Relaxed);
+        note_alloc(l.size() as u64, l.size() as u64);
         unsafe { System.alloc(l) }
+    }
+    unsafe fn alloc_zeroed(&self, l: Layout) -> *mut u8 {
+        note_alloc(l.size() as u64, l.size() as u64);
+        unsafe { System.alloc_zeroed(l) }
     }
     unsafe fn dealloc(&self, p: *mut u8, l: Layout) {
         unsafe { System.dealloc(p, l) }
     }
     unsafe fn realloc(&self, p: *mut u8, l: Layout, n: usize) -> *mut u8 {
-        if n > l.size() {
-            let _ = T_ALLOC.try_with(|c| c.set(c.get() + (n - l.size()) as u64));
-            G_ALLOC.fetch_add((n - l.size()) as u64, Ordering::Relaxed);
-        }
+        note_alloc(n as u64, (n as u64).saturating_sub(l.size() as u64));
         unsafe { System.realloc(p, l, n) }
     }
+}
+/// allocation window for the live tiers (process-wide counters)
+struct AllocWin { a0: u64 }
+impl AllocWin {
+    fn start() -> Self { G_MAX.store(0, Ordering::SeqCst); AllocWin { a0: G_ALLOC.load(Ordering::SeqCst) } }
+    /// (total bytes requested, largest single request) since start
+    fn end(&self) -> (u64, u64) { (G_ALLOC.load(Ordering::SeqCst) - self.a0, G_MAX.load(Ordering::SeqCst)) }
+}
+/// "no allocation disproportionate to the input": bound on the largest single request and on the total
+/// requested while one input is processed by a live endpoint (harness-side copies of the input included)
+fn live_alloc_bounds(tier: &str, len: usize) -> (u64, u64) {
+    // creating a PeerConnection (ICE/DTLS/SCTP setup, certificate) has a fixed cost that is not driven by the input
+    let (base_total, base_single) = if tier.contains("PeerConnection") { (16u64 << 20, 1u64 << 20) } else { (2u64 << 20, 64u64 << 10) };
+    ((256 * len as u64).max(base_total), (64 * len as u64).max(base_single))
+}
+static LIVE_BLOATS: parking_lot::Mutex<Vec<(String, Vec<u8>)>> = parking_lot::Mutex::new(Vec::new());
+fn live_alloc_note(tier: &str, input: &[u8], w: &AllocWin) {
+    if let Some(m) = live_alloc_check(tier, input.len(), w) { let mut g = LIVE_BLOATS.lock(); if g.len() < 16 { g.push((m, input.to_vec())); } }
+}
+static LIVE_ALLOC_MAX: parking_lot::Mutex<std::collections::BTreeMap<String, (u64, u64)>> = parking_lot::Mutex::new(std::collections::BTreeMap::new());
+fn live_alloc_check(tier: &str, len: usize, w: &AllocWin) -> Option<String> {
+    let (total, single) = w.end();
+    {
+        let mut g = LIVE_ALLOC_MAX.lock();
+        let e = g.entry(tier.to_string()).or_insert((0, 0));
+        e.0 = e.0.max(total); e.1 = e.1.max(single);
+    }
+    let (bt, bs) = live_alloc_bounds(tier, len);
+    if single > bs { Some(format!("BLOAT: while {} processed a {}-byte input a single allocation of {} bytes was requested (bound {})", tier, len, single, bs)) }
+    else if total > bt { Some(format!("BLOAT: while {} processed a {}-byte input {} bytes were requested in total (bound {})", tier, len, total, bt)) }
+    else { None }
 }
 #[global_allocator]
 static ALLOC: CountingAlloc = CountingAlloc;
@@ -90,19 +131,22 @@ struct Obs<T> {
     res: Result<T, String>, // Err = panic (message @ location)
     dur: Duration,
     alloc: u64,
+    max_req: u64,
 }
 fn observe<T, F: FnMut() -> T>(mut f: F) -> Obs<T> {
     let a0 = T_ALLOC.with(|c| c.get());
+    T_MAX.with(|c| c.set(0));
     let p0 = panics();
     let t0 = Instant::now();
     let r = std::panic::catch_unwind(std::panic::AssertUnwindSafe(&mut f));
     let dur = t0.elapsed();
     let alloc = T_ALLOC.with(|c| c.get()) - a0;
+    let max_req = T_MAX.with(|c| c.get());
     let res = match r {
         Ok(v) => Ok(v),
         Err(_) => Err(if panics() > p0 { last_panic() } else { "panic".into() }),
     };
-    Obs { res, dur, alloc }
+    Obs { res, dur, alloc, max_req }
 }
 
 fn hex(b: &[u8]) -> String {
@@ -125,6 +169,8 @@ const T_CKE: u32 = 7;
 const T_FINISHED: u32 = 8;
 const T_DTLS_CH_EXT: u32 = 9;
 const T_DCEP_OPEN: u32 = 10;
+const T_DTLS_FRAG: u32 = 12;
+const T_SCTP_DATAHDR: u32 = 46;
 const T_DCEP_ACK: u32 = 11;
 const T_H264: u32 = 20;
 const T_RTX: u32 = 21;
@@ -153,7 +199,7 @@ fn tname(t: u32) -> &'static str {
     match t {
         T_HSMSG => "HandshakeMessage::decode", T_CLIENT_HELLO => "ClientHello::decode", T_SERVER_HELLO => "ServerHello::decode",
         T_HELLO_VERIFY => "HelloVerifyRequest::decode", T_CERT => "CertificateMessage::decode", T_SKE => "ServerKeyExchange::decode",
-        T_CKE => "ClientKeyExchange::decode", T_DTLS_CH_EXT => "dtls handle_client_hello (decode + extension walk, live server)", T_DTLS_LIVE => "live DtlsTransport", T_FINISHED => "Finished::decode", T_DCEP_OPEN => "DataChannelOpen::unmarshal",
+        T_CKE => "ClientKeyExchange::decode", T_DTLS_CH_EXT => "dtls handle_client_hello (decode + extension walk, live server)", T_DTLS_LIVE => "live DtlsTransport", T_DTLS_FRAG => "dtls handshake fragment reassembly (live server)", T_SCTP_DATAHDR => "sctp handle_data header guard (live)", T_FINISHED => "Finished::decode", T_DCEP_OPEN => "DataChannelOpen::unmarshal",
         T_DCEP_ACK => "DataChannelAck::unmarshal", T_H264 => "H264Depacketizer::push", T_RTX => "unwrap_rtx_packet",
         T_UDPTL => "UdtlTransport::recv", T_SCTP_WALK => "sctp handle_packet chunk walker", T_SCTP_INITACK => "sctp handle_init_ack",
         T_SCTP_SACK => "sctp handle_sack", T_SCTP_FWD => "sctp handle_forward_tsn", T_SCTP_RECONFIG => "sctp handle_reconfig",
@@ -503,6 +549,12 @@ impl Sink {
         };
         if fail.is_none() && o.dur > time_bound(len) {
             fail = Some(format!("HANG: {} took {:?} on {} bytes (bound {:?})", tname(t), o.dur, len, time_bound(len)));
+        }
+        // largest single request: 64 bytes per input byte; the H.264 depacketizer builds one ~272-byte VideoFrame per
+        // 2-byte empty NAL unit of a STAP-A packet in a doubling Vec (linear, factor <= 512; see notes/C07.md)
+        let single_bound = ((if t == T_H264 { 512 } else { 64 }) * len as u64).max(64 * 1024);
+        if fail.is_none() && o.max_req > single_bound {
+            fail = Some(format!("BLOAT: {} requested a single allocation of {} bytes for {} input bytes (bound {})", tname(t), o.max_req, len, single_bound));
         }
         if fail.is_none() && o.alloc > alloc_bound(t, len) {
             fail = Some(format!("BLOAT: {} allocated {} bytes for {} input bytes (bound {})", tname(t), o.alloc, len, alloc_bound(t, len)));
@@ -1023,7 +1075,9 @@ a=mid:{m2}\r\na=sctp-port:{sctpport}\r\na=max-message-size:{maxmsg}\r\n",
 }
 
 async fn sdp_case(s: &mut Sink, sdp: &str, kind: &str, what: &str, mid_model: Option<i128>) {
+    let w = AllocWin::start();
     let (v, fail, dur) = sdpx::apply(sdp).await;
+    live_alloc_note("a fresh PeerConnection (remote SDP)", sdp.as_bytes(), &w);
     s.count(T_SET_REMOTE, v);
     let m = s.max_dur_us.entry(T_SET_REMOTE).or_insert(0);
     *m = (*m).max(dur.as_micros() as u64);
@@ -1137,7 +1191,9 @@ async fn udptl_streams(s: &mut Sink, rng: &mut Rng, thorough: bool) {
         let p0 = panics();
         let t0 = Instant::now();
         let mut rb = UdtlReceiveBuffer::new();
+        let w = AllocWin::start();
         let r = tokio::time::timeout(Duration::from_secs(2), std::panic::AssertUnwindSafe(tr.recv(&mut rb))).await;
+        live_alloc_note("UdtlTransport::recv", &bs, &w);
         let r = match r { Ok(x) => Ok(x), Err(_) => Err(()) };
         let dur = t0.elapsed();
         let (o, fail) = match r {
@@ -1192,6 +1248,13 @@ mod sctpx {
         /// inject the packets, then a sentinel HEARTBEAT; everything the endpoint emits before the
         /// sentinel's HEARTBEAT-ACK, in order (None = the endpoint stopped answering)
         pub async fn exchange(&mut self, raws: Vec<Vec<u8>>) -> Option<Vec<Chunk>> {
+            let all: Vec<u8> = raws.concat();
+            let w = AllocWin::start();
+            let r = self.exchange_inner(raws).await;
+            live_alloc_note("the live SCTP endpoint", &all, &w);
+            r
+        }
+        async fn exchange_inner(&mut self, raws: Vec<Vec<u8>>) -> Option<Vec<Chunk>> {
             for r in raws { self.u.inject_raw(r); }
             self.n += 1;
             let mut sent = b"C07SENT:".to_vec();
@@ -1546,6 +1609,7 @@ async fn initack_stream(s: &mut Sink, rng: &mut Rng, thorough: bool) {
     for (v, what, kind) in cases {
         if v.len() + 4 > 65535 { continue; }
         let pp = panics();
+        let w = AllocWin::start();
         let _ = inject_tx.send(Bytes::from(raw_packet(uut_tag, &chunk_bytes(2, 0, &v))));
         n += 1;
         let mut sent = b"C07INIT:".to_vec(); sent.extend_from_slice(&n.to_be_bytes());
@@ -1559,6 +1623,7 @@ async fn initack_stream(s: &mut Sink, rng: &mut Rng, thorough: bool) {
                 _ => break,
             }
         }
+        live_alloc_note("the live SCTP endpoint (INIT-ACK)", &v, &w);
         if !answered { sctp_fail(s, T_SCTP_INITACK, &what, format!("LIVENESS/PANIC: endpoint stopped answering after this INIT-ACK (panics {}): {}", panics() - pp, last_panic()), &v); dead = true; break; }
         let mut dig = vec![];
         for c in got.iter().filter(|c| c.ty == 10) { dig.push(1); bdig(&mut dig, &c.value); }
@@ -1696,12 +1761,14 @@ async fn dtls_streams(s: &mut Sink, rng: &mut Rng, thorough: bool) {
     for (body, what, kind) in cases {
         let pp = panics();
         let sv = side(&cert, false).await;
+        let w = AllocWin::start();
         let _ = sv.peer.send_to(&record(22, 0, 0, &hs(1, 0, body.len() as u32, 0, &body)), sv.addr).await;
         // sentinel: a valid ClientHello offering only the (unassigned) SRTP profile 0x7777. If the case was accepted the
         // server has already answered (and merely retransmits); if it was rejected, the sentinel is what gets answered.
         let sentinel = hello(Some(&[0, 14, 0, 5, 0, 2, 0x77, 0x77, 0])).b;
         let _ = sv.peer.send_to(&record(22, 0, 1, &hs(1, 0, sentinel.len() as u32, 0, &sentinel)), sv.addr).await;
         let r = read_server_hello(&sv.peer, Duration::from_millis(1500)).await;
+        live_alloc_note("a live DTLS server (ClientHello)", &body, &w);
         let answered = r.is_some();
         let r = match r { Some((0, 0x7777)) => None, x => x };
         let fin_panic = panics() > pp;
@@ -1711,6 +1778,131 @@ async fn dtls_streams(s: &mut Sink, rng: &mut Rng, thorough: bool) {
         s.count(T_DTLS_CH_EXT, o.v);
         s.push_case(T_DTLS_CH_EXT, &[], &[body], &o, fail, kind, &what, true);
         sv.runner.abort();
+    }
+
+    // ---- (1b) fragment reassembly on a fresh server: a ClientHello cut into fragments (message_seq 0); the model folds
+    //           the same fragments through its reassembly step and decodes what comes out
+    {
+        let mut fcases: Vec<(Vec<(u32, u32, Vec<u8>)>, String, &str)> = vec![];   // (total, offset, body) per fragment
+        let exts: [&[u8]; 3] = [&[0, 23, 0, 0, 0, 14, 0, 7, 0, 4, 0, 2, 0, 1, 0], &[0, 14, 0, 5, 0, 2, 0, 8, 0], &[]];
+        for (ei, e) in exts.iter().enumerate() {
+            let h = hello(if e.is_empty() { None } else { Some(e) }).b;
+            let n = h.len() as u32;
+            for k in 2..=4usize {
+                let mut cuts: Vec<usize> = (1..k).map(|j| j * h.len() / k + (rng.below(5) as usize)).collect();
+                cuts.push(h.len()); cuts.insert(0, 0);
+                let frags: Vec<(u32, u32, Vec<u8>)> = (0..k).map(|j| (n, cuts[j] as u32, h[cuts[j]..cuts[j + 1]].to_vec())).collect();
+                let before_last = cuts[k - 1] as u32;
+                fcases.push((frags.clone(), format!("hello #{} in {} in-order fragments", ei, k), "structured"));
+                let mut f = frags.clone(); f.insert(0, frags[0].clone());
+                fcases.push((f, format!("hello #{} in {} fragments, first one twice", ei, k), "structured"));
+                for (tn, tv) in [("total+1", n + 1), ("total 65536", 65536), ("total 2^24-1", 0xFF_FFFF), ("total just above all but the last fragment", before_last + 1), ("total 0", 0), ("total = first fragment length + 1", frags[0].2.len() as u32 + 1)] {
+                    let f: Vec<_> = frags.iter().map(|(_, o, b)| (tv, *o, b.clone())).collect();
+                    fcases.push((f, format!("hello #{} in {} fragments, declared {}", ei, k, tn), "structured"));
+                }
+                let f: Vec<_> = frags.iter().enumerate().map(|(j, (t, o, b))| (*t, if j == 0 { *o } else { 0xFF_FFFF - *o }, b.clone())).collect();
+                fcases.push((f, format!("hello #{} in {} fragments, garbage offsets after the first", ei, k), "structured"));
+                let f: Vec<_> = frags.iter().enumerate().map(|(j, (t, o, b))| (*t, if j == 1 { 0 } else { *o }, b.clone())).collect();
+                fcases.push((f, format!("hello #{} in {} fragments, second fragment claims offset 0", ei, k), "structured"));
+                let mut f = frags.clone(); f.reverse();
+                fcases.push((f, format!("hello #{} in {} fragments, reversed", ei, k), "structured"));
+            }
+        }
+        fcases.push((vec![(0xFF_FFFF, 0, vec![1])], "seeded-change witness: one 1-byte fragment declaring total_length 2^24-1".into(), "corpus"));
+        fcases.push((vec![(0xFF_FFFF, 0, vec![])], "empty fragment declaring total_length 2^24-1".into(), "corpus"));
+        fcases.push((vec![(0, 0, vec![7])], "1-byte fragment declaring total_length 0".into(), "corpus"));
+        for (frags, what, kind) in fcases {
+            let pp = panics();
+            let sv = side(&cert, false).await;
+            let wire: Vec<u8> = frags.iter().flat_map(|(t, o, b)| hs(1, 0, *t, *o, b)).collect();
+            let w = AllocWin::start();
+            for (i, (t, o, b)) in frags.iter().enumerate() { let _ = sv.peer.send_to(&record(22, 0, i as u64, &hs(1, 0, *t, *o, b)), sv.addr).await; }
+            let sentinel = hello(Some(&[0, 14, 0, 5, 0, 2, 0x77, 0x77, 0])).b;
+            let _ = sv.peer.send_to(&record(22, 0, 99, &hs(1, 0, sentinel.len() as u32, 0, &sentinel)), sv.addr).await;
+            let r = read_server_hello(&sv.peer, Duration::from_millis(1500)).await;
+            live_alloc_note("a live DTLS server (handshake fragments)", &wire, &w);
+            let answered = r.is_some();
+            let r = match r { Some((0, 0x7777)) => None, x => x };
+            let (o, fail) = if panics() > pp { (Out1 { v: V_PANIC, dig: vec![] }, Some(format!("PANIC in the DTLS server task on handshake fragments: {}", last_panic()))) }
+                else if !answered { (Out1 { v: V_ERR, dig: vec![] }, Some("LIVENESS: the DTLS server answered neither the fragments nor a valid ClientHello sent after them".to_string())) }
+                else { match r { Some((ems, prof)) => (Out1 { v: V_OK, dig: vec![ems, prof] }, None), None => (Out1 { v: V_ERR, dig: vec![] }, None) } };
+            let ins: Vec<Vec<u8>> = frags.iter().map(|(t, o, b)| { let mut v = t.to_be_bytes()[1..].to_vec(); v.extend(&o.to_be_bytes()[1..]); v.extend(b); v }).collect();
+            s.count(T_DTLS_FRAG, o.v);
+            s.push_case(T_DTLS_FRAG, &[], &ins, &o, fail, kind, &what, true);
+            sv.runner.abort();
+        }
+    }
+    // ---- (1c) oracle only: one fragment of every handshake type with every relation between the declared total length,
+    //           the fragment length and the offset, to a fresh server, a mid-handshake client and an established pair;
+    //           per datagram: panic hook, total and largest single allocation request
+    {
+        let types = [0u8, 1, 2, 3, 11, 12, 13, 14, 15, 16, 20];
+        let mut est = vh::net::dtls_pair_connected().await;
+        let mut est_srx = est.server.app_rx.take().unwrap();
+        let mut est_crx = est.client.app_rx.take().unwrap();
+        let third = tokio::net::UdpSocket::bind("127.0.0.1:0").await.unwrap();
+        let mut n_in = 0u64;
+        for &ty in &types {
+            for flen in [0usize, 1, 40] {
+                for total in [0u32, flen as u32, flen as u32 + 1, 1 << 16, 0xFF_FFFF] {
+                    for off in [0u32, 5] {
+                        if total == flen as u32 && off != 0 { continue; }
+                        let body = rng.bytes(flen);
+                        let frag = hs(ty, 0, total, off, &body);
+                        let what = format!("fragment type {} len {} declared total {} offset {}", ty, flen, total, off);
+                        for target in 0..3 {
+                            let pp = panics();
+                            n_in += 1;
+                            let tier = ["a live DTLS server (pre-handshake, one fragment)", "a live DTLS client (mid-handshake, one fragment)", "an established DTLS pair (one fragment)"][target];
+                            let mut fail = None;
+                            match target {
+                                0 => {
+                                    let sv = side(&cert, false).await;
+                                    let w = AllocWin::start();
+                                    let _ = sv.peer.send_to(&record(22, 0, 0, &frag), sv.addr).await;
+                                    let sentinel = hello(None).b;
+                                    let _ = sv.peer.send_to(&record(22, 0, 1, &hs(1, 0, sentinel.len() as u32, 0, &sentinel)), sv.addr).await;
+                                    let r = read_server_hello(&sv.peer, Duration::from_millis(1500)).await;
+                                    live_alloc_note(tier, &frag, &w);
+                                    if r.is_none() && panics() == pp && ty != 1 { fail = Some(format!("LIVENESS: after a {} the DTLS server does not answer a valid ClientHello", what)); }
+                                    sv.runner.abort();
+                                }
+                                1 => {
+                                    let cl = side(&cert, true).await;
+                                    let mut b = [0u8; 2048];
+                                    let _ = tokio::time::timeout(Duration::from_millis(800), cl.peer.recv_from(&mut b)).await; // its ClientHello
+                                    let w = AllocWin::start();
+                                    let _ = cl.peer.send_to(&record(22, 0, 0, &frag), cl.addr).await;
+                                    for sq in [0u16, 1] { let _ = cl.peer.send_to(&record(22, 0, 1 + sq as u64, &hs(3, sq, 3 + 4, 0, &[254, 255, 4, 1, 2, 3, 4])), cl.addr).await; }
+                                    let _ = tokio::time::timeout(Duration::from_millis(150), cl.peer.recv_from(&mut b)).await; // new ClientHello (if the HVR was accepted)
+                                    live_alloc_note(tier, &frag, &w);
+                                    cl.runner.abort();
+                                }
+                                _ => {
+                                    let w = AllocWin::start();
+                                    let _ = third.send_to(&record(22, 0, 7, &frag), est.server.ep.addr).await;
+                                    let _ = third.send_to(&record(22, 0, 7, &frag), est.client.ep.addr).await;
+                                    let a = est.client.dtls.send(Bytes::from_static(b"c2s")).await.is_ok();
+                                    let b2 = est.server.dtls.send(Bytes::from_static(b"s2c")).await.is_ok();
+                                    let g1 = matches!(tokio::time::timeout(Duration::from_secs(2), est_srx.recv()).await, Ok(Some(_)));
+                                    let g2 = matches!(tokio::time::timeout(Duration::from_secs(2), est_crx.recv()).await, Ok(Some(_)));
+                                    live_alloc_note(tier, &frag, &w);
+                                    if !(a && b2 && g1 && g2) && panics() == pp { fail = Some(format!("LIVENESS: after a {} application data no longer flows over the established pair", what)); }
+                                }
+                            }
+                            if panics() > pp { fail = Some(format!("PANIC in {} on a {}: {}", tier, what, last_panic())); }
+                            if let Some(m) = fail {
+                                s.out.push(Case { term: "-".into(), desc: json!({"target": tname(T_DTLS_LIVE), "what": what, "tier": tier, "input_hex": hex(&frag)}),
+                                    oracle_fail: Some(m), known: None, nontrivial: false, key: format!("dtls|frag|{}|{}", target, what), kind: "live".into() });
+                            }
+                        }
+                    }
+                }
+            }
+        }
+        s.count(T_DTLS_LIVE, V_OK);
+        s.out.push(Case { term: "-".into(), desc: json!({"target": tname(T_DTLS_LIVE), "what": "single handshake fragments: 11 types x fragment length {0,1,40} x declared total {0, len, len+1, 2^16, 2^24-1} x offset {0,5}, each to a fresh server, a mid-handshake client and an established pair", "inputs": n_in}),
+            oracle_fail: None, known: None, nontrivial: true, key: "dtls|frag|grid".into(), kind: "structured".into() });
     }
 
     // ---- (2) oracle only: hostile records to a server before the handshake, to a client in mid-handshake, and to
@@ -1723,6 +1915,8 @@ async fn dtls_streams(s: &mut Sink, rng: &mut Rng, thorough: bool) {
         if is_client { let mut b = [0u8; 2048]; let _ = tokio::time::timeout(Duration::from_millis(500), sd.peer.recv_from(&mut b)).await; } // its ClientHello
         let mut mseq = 0u16;
         let mut last = vec![];
+        let mut w = AllocWin::start();
+        let mut wbytes: Vec<u8> = vec![];
         for i in 0..n {
             let ty = *rng.pick(&types);
             let l = random_len(rng, 1300).min(1300);
@@ -1742,9 +1936,15 @@ async fn dtls_streams(s: &mut Sink, rng: &mut Rng, thorough: bool) {
             let epoch = if rng.chance(1, 12) { rng.below(3) as u16 } else { 0 };
             let rec = record(ct, epoch, i as u64, &payload);
             last = rec.clone();
+            wbytes.extend(&rec);
             let _ = sd.peer.send_to(&rec, sd.addr).await;
             if rng.chance(2, 3) { mseq = mseq.wrapping_add(1); }
-            if i % 50 == 49 { tokio::time::sleep(Duration::from_millis(5)).await; if panics() > pp { break; } }
+            if i % 50 == 49 {
+                tokio::time::sleep(Duration::from_millis(5)).await;
+                live_alloc_note(if is_client { "a live DTLS client (50 hostile records)" } else { "a live DTLS server (50 hostile records)" }, &wbytes, &w);
+                wbytes.clear(); w = AllocWin::start();
+                if panics() > pp { break; }
+            }
         }
         tokio::time::sleep(Duration::from_millis(100)).await;
         let fail = if panics() > pp { Some(format!("PANIC in a live DTLS {} task: {} (last record {})", if is_client { "client" } else { "server" }, last_panic(), hex(&last))) } else { None };
@@ -1983,10 +2183,12 @@ async fn turn_streams(s: &mut Sink, rng: &mut Rng, thorough: bool) {
     let mut dead = false;
     for (pl, is_req, what, kind) in cases {
         let pp = panics();
+        let w = AllocWin::start();
         let _ = srv.sock.send_to(&data_indication(peer, &pl, None), client).await;
         let _ = srv.sock.send_to(&data_indication(peer, &binding_request(0xEE), None), client).await;
         let r = srv.answers_until_probe(0xEE, Duration::from_millis(2000)).await;
         let got = match r { Some(k) => k + 1, None => 0 };
+        live_alloc_note("the ICE transport (TURN-relayed data)", &pl, &w);
         let fin = ice.runner.is_finished();
         let fail = if panics() > pp { Some(format!("PANIC in the ICE transport task on relayed data: {}", last_panic())) }
                    else if fin { Some("the IceTransport runner task ended".to_string()) }
@@ -2078,6 +2280,16 @@ async fn turn_streams(s: &mut Sink, rng: &mut Rng, thorough: bool) {
     }
 }
 
+fn flush_bloats(s: &mut Sink, stream: &str) {
+    let v: Vec<(String, Vec<u8>)> = std::mem::take(&mut *LIVE_BLOATS.lock());
+    for (i, (m, input)) in v.into_iter().enumerate() {
+        s.out.push(Case { term: "-".into(),
+            desc: json!({"target": format!("allocation oracle, {} tier", stream), "what": "allocation disproportionate to the input on a live endpoint", "len": input.len(),
+                         "input_hex": hex(&input), "input_full_hex": input.iter().take(4096).map(|b| format!("{:02x}", b)).collect::<String>()}),
+            oracle_fail: Some(m), known: None, nontrivial: false, key: format!("bloat|{}|{}", stream, i), kind: "live".into() });
+    }
+}
+
 // ------------------------------------------------------------------------------------------------
 fn main() {
     let args = parse_args();
@@ -2113,19 +2325,19 @@ fn main() {
     }
     rt.block_on(async {
         let t = Instant::now();
-        if want("sdp") { let mut r = Rng::new(args.seed ^ 0x2222); sdp_streams(&mut s, &mut r, thorough).await; }
+        if want("sdp") { let mut r = Rng::new(args.seed ^ 0x2222); sdp_streams(&mut s, &mut r, thorough).await; flush_bloats(&mut s, "sdp"); }
         times.insert("sdp".into(), json!(t.elapsed().as_secs_f64()));
         let t = Instant::now();
-        if want("udptl") { let mut r = Rng::new(args.seed ^ 0x3333); udptl_streams(&mut s, &mut r, thorough).await; }
+        if want("udptl") { let mut r = Rng::new(args.seed ^ 0x3333); udptl_streams(&mut s, &mut r, thorough).await; flush_bloats(&mut s, "udptl"); }
         times.insert("udptl".into(), json!(t.elapsed().as_secs_f64()));
         let t = Instant::now();
-        if want("dtls") { let mut r = Rng::new(args.seed ^ 0x4444); dtls_streams(&mut s, &mut r, thorough).await; }
+        if want("dtls") { let mut r = Rng::new(args.seed ^ 0x4444); dtls_streams(&mut s, &mut r, thorough).await; flush_bloats(&mut s, "dtls"); }
         times.insert("dtls".into(), json!(t.elapsed().as_secs_f64()));
         let t = Instant::now();
-        if want("sctp") { let mut r = Rng::new(args.seed ^ 0x5555); sctp_streams(&mut s, &mut r, thorough).await; }
+        if want("sctp") { let mut r = Rng::new(args.seed ^ 0x5555); sctp_streams(&mut s, &mut r, thorough).await; flush_bloats(&mut s, "sctp"); }
         times.insert("sctp".into(), json!(t.elapsed().as_secs_f64()));
         let t = Instant::now();
-        if want("turn") { let mut r = Rng::new(args.seed ^ 0x6666); turn_streams(&mut s, &mut r, thorough).await; }
+        if want("turn") { let mut r = Rng::new(args.seed ^ 0x6666); turn_streams(&mut s, &mut r, thorough).await; flush_bloats(&mut s, "turn"); }
         times.insert("turn".into(), json!(t.elapsed().as_secs_f64()));
     });
     rt.shutdown_timeout(Duration::from_millis(200));
@@ -2142,5 +2354,6 @@ fn main() {
         "streams": ["corpus", "exhaustive (all byte strings of length <= 2)", "structured (valid message, every length field 0/-1/+1/+2/max/max-1/half/double, every prefix, +1..3 bytes)", "random-bulk (up to 64 KiB, full/low entropy)", "live (SCTP endpoint, TURN client, PeerConnection) with liveness probes"],
         "time_s": times,
         "panics_seen_process_wide": panics(), "panic_log_head": plog,
+        "live_alloc_max_per_input(total, largest single request)": LIVE_ALLOC_MAX.lock().iter().map(|(k, v)| (k.clone(), json!([v.0, v.1]))).collect::<serde_json::Map<_, _>>(),
     }}));
 }
